@@ -271,6 +271,8 @@ def scenarios():
     G = {'f': f, 'g': g, 'h': h, 'x': Gx}
     out.append(('args', 'f(g(), x, h()): arguments evaluated left to right, then the call', F('f', F('g'), V('x'), F('h')), None, G, {}, True, {}, {}, 'on'))
     out.append(('args', 'f() whose model has no args member', F('f', noargs=True), None, G, {}, True, {}, {}, 'on'))
+    out.append(('args', 'u(g(), h()) where u is not defined: the arguments are evaluated (left to right) before the call fails', F('u', F('g'), F('h')), None, G, {}, True, {}, {}, 'on'))
+    out.append(('args', 'u(g(), h()) where u is not defined and built-ins are disabled', F('u', F('g'), F('h')), {'g': g}, G, {}, False, {}, {}, 'on'))
     out.append(('args', 'f(f(), f())', F('f', F('f'), F('f')), None, G, {}, True, {}, {}, 'on'))
     out.append(('args', 'f((x), !g())', F('f', {'group': V('x')}, {'unary': {'op': '!', 'expr': F('g')}}), None, G, {}, True, {}, {'g': False}, 'on'))
     # D: laziness
